@@ -24,6 +24,9 @@ type c01Case struct {
 	Args   []string `json:"args,omitempty"`
 	// Strict: a generation error on this (plain, documented) document is itself a violation
 	Strict bool `json:"strict,omitempty"`
+	// RefusalOK: a generation error is an accepted outcome (names that cannot be given distinct Go names: C08 asks
+	// for an error there); only "exits 0 and does not build" is a violation
+	RefusalOK bool `json:"refusal_ok,omitempty"`
 	// Ops: ids of packed operations (for bisection)
 	Ops []OpCase `json:"-"`
 }
@@ -398,6 +401,17 @@ func RunC01(tier, replay string) int {
 				}
 			}
 		}
+		// ---- (10) the specs of C08 (colliding names in every position, multi-operation shapes): C08 leaves "exits 0
+		// but does not build" to this check, so this check has to build them
+		c08Targets := []string{"server"} // quick: the server target (the one C08 itself generates); thorough: client too
+		if tier == "thorough" {
+			c08Targets = []string{"server", "client"}
+		}
+		for _, cc := range c08Cases(tier) {
+			for _, t := range c08Targets {
+				cases = append(cases, c01Case{Name: "C08 spec: " + cc.Name, Class: "c08:" + cc.Class + ":" + cc.Name, Doc: cc.Doc, Target: t, Args: cc.Args, RefusalOK: true})
+			}
+		}
 		// ---- (7) documented vendor extensions (x-go-type family and the struct-tag / ordering / nullability extensions)
 		cases = append(cases, c01ExtCases(tier)...)
 		if tier == "thorough" {
@@ -496,6 +510,9 @@ func RunC01(tier, replay string) int {
 		case res.flaky != "":
 			r.Violate(evid.Violation{Signature: fmt.Sprintf("%s | nondeterministic outcome", c.Target), What: fmt.Sprintf("generate %s %v on [%s] does not give the same result on every run (%s): sometimes the generated code does not build", c.Target, c.Args, c.Name, res.flaky), Case: c, Observed: trunc(res.genErr+res.buildErr, 1500)})
 			r.CaseKeyed(key, sample, true, "VIOLATION:nondeterministic")
+		case res.genErr != "" && c.RefusalOK:
+			r.Count("refused(colliding names: an error is what C08 asks for)", 1)
+			r.CaseKeyed(key, sample, true, "refused(accepted)")
 		case res.genErr != "" && c.Strict:
 			r.Violate(evid.Violation{Signature: fmt.Sprintf("%s | generate-fails | %s | %s", c.Target, sigClass(c.Class), compilerClass(res.genErr)), What: fmt.Sprintf("generate %s %v fails on a plain valid document [%s]: %s", c.Target, c.Args, c.Name, trunc(res.genErr, 300)), Case: c, Observed: res.genErr})
 			r.CaseKeyed(key, sample, false, "VIOLATION:generate-fails")
